@@ -62,6 +62,8 @@ type PContext struct {
 	originIfaceValue *hack.Iface
 	// proxyFunc 代理函数, 需要内存持续持有
 	proxyFunc reflect.Value
+	// keepAlive 持有所有被桩代码引用的函数对象(桩代码中的地址对 GC 不可见)
+	keepAlive []interface{}
 	// canceled 是否已经被取消
 	canceled bool
 }
@@ -116,6 +118,7 @@ func GenCallableMethod(ctx *IContext, apply interface{}, proxy PFunc) uintptr {
 		applyValue := reflect.ValueOf(apply)
 		mockFuncPtr := (*hack.Value)(unsafe.Pointer(&applyValue)).Ptr
 		methodCaller, err = MakeMethodCaller(mockFuncPtr)
+		ctx.p.keepAlive = append(ctx.p.keepAlive, apply)
 	} else {
 		// 生成桩代码,rdx 寄存器还原, 生成的调用将跳转到 proxy 函数
 		methodTyp := reflect.TypeOf(apply)
@@ -127,6 +130,7 @@ func GenCallableMethod(ctx *IContext, apply interface{}, proxy PFunc) uintptr {
 		mockFuncPtr := (*hack.Value)(unsafe.Pointer(&mockFunc)).Ptr
 		methodCaller, err = MakeMethodCallerWithCtx(mockFuncPtr, callStub)
 		ctx.p.proxyFunc = mockFunc
+		ctx.p.keepAlive = append(ctx.p.keepAlive, mockFunc)
 	}
 
 	if err != nil {
